@@ -1,0 +1,3 @@
+//! Verification hooks for the transports (feature `verif-hooks` only).
+
+pub use super::relay::verif::VerifRelayTransport;
